@@ -242,6 +242,7 @@ def run(ctx: Ctx) -> Result:
                 res.disagreements.append({'driver': str(e)[:300]})
         # (b) round trip of compiler / builder / vector outputs
         rt = []
+        k9 = []
         for i in range(ctx.n(2500, 40000)):
             prog = g.program()
             src = g.source(prog)
@@ -255,13 +256,27 @@ def run(ctx: Ctx) -> Result:
             if b is None: res.notes.append(name)
             else: rt.append(('builder ' + name, b))
         for name, b in repo_vectors(): rt.append(('vector ' + name, b))
+        # deterministic probe of known finding K9: a DEF inside the hoisted condition of an IF inside a DEF body
+        try: rt.append(('K9 probe', P.compile_script('def 0 { if ( def 1 { true } true ) { false } }')))
+        except BaseException: pass
         chunks = [rt[i::32] for i in range(32)]
         outs = pool.map_async(_rt, [[b for _, b in ch] for ch in chunks]).get(timeout=3000)
         for ch, oc in zip(chunks, outs):
             for (what, b), (st, detail) in zip(ch, oc):
                 res.note_case(('rt', b))
                 if st != 'OK':
+                    if st.startswith('compile(decompile') and 'cannot use OP_DEF within OP_DEF body' in str(detail):
+                        k9.append((what, b)); continue
                     viol(what + ' (' + st + ')', b, 'compile(decompile(b)) == b', str(detail))
+        from ..core import known_ids
+        if k9:
+            if 'K9' in known_ids('C12'):
+                res.known.append(('K9', f'the compiler accepts a DEF inside the hoisted condition of an IF inside a DEF body and emits a DEF directly inside the DEF body, '
+                                        f'whose listing it then rejects ({len(k9)} compiler outputs this run, e.g. {k9[0][1].hex()[:60]})'))
+            else:
+                viol(k9[0][0] + ' (compile(decompile(b)) != b)', k9[0][1], 'compile(decompile(b)) == b', 'ERR:SyntaxError:cannot use OP_DEF within OP_DEF body')
+                res.violations[-1]['finding'] = 'K9'
+        res.stats['K9_cases'] = len(k9)
         res.stats['round_trip_cases'] = len(rt); res.stats['random_strings'] = len(strings); res.stats['exhaustive_blocks'] = len(blocks)
     finally:
         pool.terminate()
